@@ -283,16 +283,20 @@ pub fn replay(ctx: &Ctx, text: &str, coll: &Collector) {
     if (parts[1] == "likelysubtags") != WITH_LIKELY {
         return; // belongs to the other build
     }
-    let u = Universe::new(&ctx.repo);
-    let dr = load_dirref(&ctx.repo);
-    let ex = expectations(&u, &dr);
+    let u = super::universe::shared(&ctx.repo);
+    static D: std::sync::OnceLock<(DirRef, Expect)> = std::sync::OnceLock::new();
+    let (dr, ex) = D.get_or_init(|| {
+        let dr = load_dirref(&ctx.repo);
+        let ex = expectations(u, &dr);
+        (dr, ex)
+    });
     let mut l = Local::new();
     if let Some(i) = dr.locales.iter().position(|x| x.0 == parts[2]) {
-        check_locale(&dr, i, &mut l, coll);
+        check_locale(dr, i, &mut l, coll);
     }
     if let Some(t) = u.lk.ids_of(parts[2]) {
-        check_triple(&u, &ex, t, &mut l, coll);
+        check_triple(u, ex, t, &mut l, coll);
         let v = |s: &str| -> Variant { s.parse().unwrap() };
-        check_variants(&u, t, &[vec![v("valencia")], vec![v("1996"), v("fonipa")], vec![v("abcde"), v("1abc"), v("zzzzzzzz")]], &mut l, coll);
+        check_variants(u, t, &[vec![v("valencia")], vec![v("1996"), v("fonipa")], vec![v("abcde"), v("1abc"), v("zzzzzzzz")]], &mut l, coll);
     }
 }
